@@ -3,7 +3,7 @@ package main
 func init() {
 	checks = append(checks, &CheckSpec{
 		Prop:    "C10",
-		Harness: []string{"c01_chain.go", "c16_keyid.go", "authz_gen.go", "c10_hostile.go"},
+		Harness: hb(),
 		Entries: []EntrySpec{
 			{Pkg: "biscuit", Func: "VerifC10Block", Quick: p("ops", 2, "arities", 1, "sealed", 1, "setsecond", 2), Thorough: p("ops", 2, "arities", 3, "sealed", 2, "setsecond", 3), Covers: []string{"unmarshalled", "verified", "rejected-at-unmarshal"}},
 			{Pkg: "biscuit", Func: "VerifC10Envelope", Quick: p("arities", 1, "setsecond", 2), Thorough: p("arities", 1, "setsecond", 2), Covers: []string{"unmarshalled", "rejected-at-unmarshal"}},
